@@ -1,6 +1,8 @@
 package verifsim
 
 import (
+	"strings"
+
 	"github.com/frankkopp/FrankyGo/verifsim/rules"
 )
 
@@ -39,6 +41,7 @@ func genRootFen(rng *PRNG, terminalPct int) (string, []string, *rules.Pos) {
 func GenApiScript(prop string, seed uint64) *Scenario {
 	rng := NewPRNG(seed, "api/"+prop)
 	sc := &Scenario{Prop: prop, Kind: "api", Seed: seed, Checks: []string{"c14", "c05", "c07", "c13"}}
+	smr := NewPRNG(seed, "api-searchmoves/"+prop)
 	sc.Cost = GenCost(rng, 30000, true)
 	maxD := maxDepthFor(sc.Cost.Every)
 	perYieldNs := int64(sc.Cost.Every) * int64(sc.Cost.BaseNs)
@@ -122,7 +125,53 @@ func GenApiScript(prop string, seed uint64) *Scenario {
 				l.WTime, l.BTime = clampMs(rng.LogRange(100, 5000), 20), clampMs(rng.LogRange(100, 5000), 20)
 			}
 		}
-		_ = root
+		// searchmoves at API level: moves of the root and / or moves that are
+		// not legal there (a list made for another position). Drawn from a
+		// stream of its own so that the rest of the script does not depend on it.
+		if lm := root.LegalMoves(); len(lm) > 0 && smr.Chance(0.15) {
+			nl, ns := smr.Intn(4), smr.Intn(3)
+			if nl+ns == 0 {
+				ns = 1
+			}
+			seen := map[string]bool{}
+			for k := 0; k < nl; k++ {
+				m := lm[smr.Intn(len(lm))].String()
+				if !seen[m] {
+					seen[m] = true
+					l.Moves = append(l.Moves, m)
+				}
+			}
+			for k := 0; k < ns; k++ {
+				for try := 0; try < 20; try++ {
+					f, t := smr.Intn(64), smr.Intn(64)
+					m := rules.SqName(f) + rules.SqName(t)
+					if f == t || seen[m] {
+						continue
+					}
+					if _, ok := root.ParseMove(m); ok {
+						continue
+					}
+					// also no promotion move of the root with these squares
+					prom := false
+					for _, x := range lm {
+						if strings.HasPrefix(x.String(), m) {
+							prom = true
+						}
+					}
+					if prom {
+						continue
+					}
+					seen[m] = true
+					l.Moves = append(l.Moves, m)
+					break
+				}
+			}
+			// order of the list is the caller's
+			for k := len(l.Moves) - 1; k > 0; k-- {
+				j := smr.Intn(k + 1)
+				l.Moves[k], l.Moves[j] = l.Moves[j], l.Moves[k]
+			}
+		}
 		st.Limits = l
 		// calls while the search runs
 		k := rng.Intn(4)
